@@ -215,7 +215,7 @@ func checkC12(c *Ctx, r *Report) {
 			}
 			nEl++
 			g := Guard{cl(atomBool("memberSubscribes(member, topic)", vmCall(pkgBrokerLib+".memberSubscribes"), true)).re(pkgBrokerLib + ".memberSubscribes")}
-			guardVerdict(m, r, "C12.R2", "append to eligible passed memberSubscribes", ap, site.Call, g)
+			guardVerdict(m, r, "C12.R2", "append to eligible passed memberSubscribes", ap, site.At, g)
 		}
 		if nEl == 0 {
 			r.viol("C12.R2", "append to eligible passed memberSubscribes", m.Pos(ap.Pos()), "the slice the partition receiver is taken from is not built by memberSubscribes-guarded appends")
@@ -277,6 +277,13 @@ func checkC12(c *Ctx, r *Report) {
 	}
 
 	// ---- R3: every membership change made by the sweep reaches the rebalance trigger
+	r.rule("C12.R4", "the eligibility test and the member order are computed from the current subscription / member set (memberState.topics, groupState.members), not from a derived field", 2)
+	if ms := needFn(m, r, "C12.R4", pkgBrokerLib, "memberSubscribes"); ms != nil {
+		checkReadsOnly(m, r, "C12.R4", "memberSubscribes decides from memberState.topics alone", ms, pkgBrokerLib+".memberState", "topics")
+	}
+	if sm := needFn(m, r, "C12.R4", pkgBrokerLib, "(*groupState).sortedMembers"); sm != nil {
+		checkReadsOnly(m, r, "C12.R4", "sortedMembers lists groupState.members as it is now", sm, pkgBrokerLib+".groupState", "members")
+	}
 	r.rule("C12.R3", "a member removed by the expiry / lagger sweep is always reported (so that cleanupGroups starts a rebalance and the member's partitions are reassigned)", 2)
 	sweepDels := map[*ssa.Function][]ssa.Instruction{}
 	isSweep := func(f *ssa.Function) bool {
@@ -455,6 +462,10 @@ func checkC14(c *Ctx, r *Report) {
 	r.rule("C14.R2", "only completeIfReady writes state=CompletingRebalance; its `return true` is unreachable after a joinGeneration mismatch", 2)
 	r.rule("C14.R3", "resp.Members = encodeMemberSubscriptions(...) only under ready ∧ memberID==state.leaderID", 1)
 	r.rule("C14.R4", "who-may-write groupState.leaderID", 5)
+	r.rule("C14.R7", "the leader is elected from the member set as it is now: sortedMembers reads groupState.members and no derived order", 1)
+	if sm := needFn(m, r, "C14.R7", pkgBrokerLib, "(*groupState).sortedMembers"); sm != nil {
+		checkReadsOnly(m, r, "C14.R7", "sortedMembers lists groupState.members as it is now", sm, pkgBrokerLib+".groupState", "members")
+	}
 
 	isReady := func(v ssa.Value) bool {
 		p, ok := v.(*ssa.Phi)
@@ -653,6 +664,13 @@ func checkC14(c *Ctx, r *Report) {
 				}
 				n++
 				guardVerdict(m, r, "C14.R6", fmt.Sprintf("SyncGroup REBALANCE_IN_PROGRESS reply #%d is given only to a group that is not Stable", n), sg, call.(ssa.Instruction), notStable)
+			}
+			// … or the code written directly into a response
+			for _, st := range storesToField(sg, "kmsg.SyncGroupResponse", "ErrorCode") {
+				if k, ok := constInt(st.Val); ok && k == 27 {
+					n++
+					guardVerdict(m, r, "C14.R6", fmt.Sprintf("SyncGroup REBALANCE_IN_PROGRESS reply #%d is given only to a group that is not Stable", n), sg, st, notStable)
+				}
 			}
 			if n == 0 {
 				r.unresolved("C14.R6", "SyncGroup REBALANCE_IN_PROGRESS replies", "none found")
